@@ -423,3 +423,541 @@ class C16:
                     ctx.violate("PersistentLoad received a Ref holding an undocumented value: " + p, line, "documented types only", calls[:400])
         for i in range(0, len(lines), max(1, len(lines) // 8)):
             ctx.sample(lines[i][:300] + " -> " + go[i][:200])
+
+
+# ------------------------------------------------------------------------------------------- C11
+
+def enc_pickles(ctx, n, canonical=True):
+    """Encode output (through the implementation) of generated values at random protocols."""
+    rng = ctx.rng
+    vals = []
+    for _ in range(n):
+        pd, su = rng.random() < 0.5, rng.random() < 0.5
+        g = V.ValueGen(rng, pydict=pd, su=su, canonical=canonical, maxdepth=3)
+        vals.append((rng.randint(0, 5), su, g.value()))
+    lines = [f"enc {p} {int(su)} - {V.render(v, sort=False)}" for p, su, v in vals]
+    out = []
+    for a in C.run_go(lines):
+        if a.startswith("OK "):
+            out.append(b"".join(bytes.fromhex(c) if c != "-" else b"" for c in a[3:].split(",")))
+    return out
+
+
+class C11:
+    prop = "C11"
+    lean_module = "Ogorek.Props.C11"
+    theorems = ["Ogorek.C11_reset", "Ogorek.C11_consumes", "Ogorek.C11_stream", "Ogorek.C11_then_eof"]
+    trusted_base = TB_COMMON
+    level_text = ("Lean theorems: a Decode call depends on earlier calls only through memo/heap/id supply/hook log, never through "
+                  "operands, a MARK or the protocol left behind (C11_reset, the F5 repair); a successful call consumes exactly "
+                  "through its STOP and what follows cannot influence it (C11_consumes, from reader locality); hence a concatenation "
+                  "decodes pickle by pickle, then io.EOF (C11_stream, C11_then_eof). PARTIAL: independence of a memo-free pickle from "
+                  "the heap offset / id supply left by earlier pickles (pure renaming) is not proved; it is covered by the tie: every "
+                  "stream is decoded on both sides and each element is compared with the same pickle decoded alone.")
+    level_note = ("trusted: Lean kernel + standard axioms; decoder model; 'values already returned are not altered' is immutability in "
+                  "the model and is checked on the implementation by re-rendering every returned value after the last call")
+    technique = "Lean 4 proof (reader locality lifted to the decode loop) + differential correspondence on pickle streams + snapshot comparison"
+    rule = ("sequences of 1-8 self-contained pickles: Encode output at independently chosen protocols (incl. []byte whose decoding "
+            "depends on the announced protocol), memo-free generated programs that leave operands and marks behind, erroring pickles "
+            "in any position; x 4 configurations; each stream decoded through one Decoder on both sides and every element compared "
+            "with the same pickle decoded alone; distinct = distinct (config, stream) with >= 2 pickles")
+    assumptions = ["self-contained = no MEMOIZE/PUT/GET (the memo is deliberately shared across pickles of one stream, as in CPython)"]
+
+    def run(self, ctx):
+        rng = ctx.rng
+        pool = enc_pickles(ctx, ctx.scale(300, 5000))
+        pool += [b"(I1\n.", b"I2\nt.", b"(K\x01K\x02.", b"\x80\x03K\x01.", b"\x80\x05\x96\x01\x00\x00\x00\x00\x00\x00\x00a.",
+                 b"c__builtin__\nbytearray\n(c_codecs\nencode\n(X\x01\x00\x00\x00aX\x06\x00\x00\x00latin1tRtR.",
+                 b"\x80\x03cbuiltins\nbytearray\nC\x01a\x85R.", b"K\x01K\x02K\x03.", b"((((N.", b"]}(.",
+                 b"t.", b"a.", b"\x80\x09N.", b"K\x01", b"(l."] + own_corpus("C11")
+        for _ in range(ctx.scale(300, 5000)):
+            pool.append(P.ProgGen(rng, wellformed=rng.random() < 0.8, selfcontained=True, maxops=rng.choice([4, 10, 25]),
+                                  persid=0).gen())
+        lines, meta = [], []
+        single = {}
+        for _ in range(ctx.scale(1200, 25000)):
+            k = rng.randint(1, 8)
+            ps = [rng.choice(pool) for _ in range(k)]
+            cfg = rng.choice(CFGS)
+            lines.append(f"decs {cfg} - {hexs(b''.join(ps))}")
+            meta.append((cfg, ps))
+            for p in ps:
+                single.setdefault((cfg, p), None)
+        slines = [f"dec {cfg} - {hexs(p)}" for (cfg, p) in single]
+        go, lean = run_both(lines)
+        sgo = C.run_sharded(C.run_go, slines)
+        for key, a in zip(list(single), sgo):
+            single[key] = a
+        for line, (cfg, ps), g, l in zip(lines, meta, go, lean):
+            ctx.evaluations += 1
+            ctx.tie(line, g, l)
+            if len(ps) >= 2:
+                ctx.nontrivial((cfg, tuple(ps)))
+            ctx.count(f"stream-len:{len(ps)}")
+            if "ALTERED" in g:
+                ctx.violate("a value already returned was altered by a later Decode call", line, "unchanged", g)
+            if "PANIC" in g or g.startswith("CRASH"):
+                ctx.violate("Decode panicked", line, "value or error", g)
+            # each element must equal the pickle decoded alone, up to the first error; then eof
+            got = [x for x in g.split(" | ") if not x.startswith("ALTERED")]
+            want = []
+            for p in ps:
+                a = single[(cfg, p)]
+                if a in ("ERR unexpectedEOF", "ERR eof"):
+                    want = None      # a truncated pickle is not a pickle: it runs into its successor
+                    break
+                want.append(a)
+                if not a.startswith("OK "):
+                    break
+                if not a.endswith(f" {len(p)}"):
+                    # the pickle alone does not consume all its bytes (junk after STOP): not self-contained input
+                    want = None
+                    break
+            else:
+                if want is not None:
+                    want.append("ERR eof")
+            if want is None:
+                ctx.count("skipped:trailing-bytes")
+                continue
+            ctx.count("element", len(want))
+            if "TOOBIG" in g:
+                continue
+            if got != want:
+                i = next((j for j in range(min(len(got), len(want))) if got[j] != want[j]), min(len(got), len(want)))
+                ctx.violate("a pickle in a stream did not decode as it does alone (or the stream did not end with io.EOF)",
+                            line + f"   [element {i}]", want[i] if i < len(want) else "(end)", got[i] if i < len(got) else "(missing)")
+        for i in range(0, len(lines), max(1, len(lines) // 8)):
+            ctx.sample(lines[i][:300] + " -> " + go[i][:300])
+
+
+# ------------------------------------------------------------------------------------------- C14
+
+class C14:
+    prop = "C14"
+    lean_module = "Ogorek.Props.C14"
+    theorems = ["Ogorek.C14_readByte", "Ogorek.C14_readFull", "Ogorek.C14_copyN", "Ogorek.C14_readLine"]
+    trusted_base = TB_COMMON + ["bufio.Reader / io.ReadFull / io.CopyN are modelled by their contracts (each call returns between 1 and the "
+                                "requested number of the next bytes, or the end); the 4096-byte buffer appears as ErrBufferFull answers of ReadSlice"]
+    level_text = ("Lean theorems: each of the four primitives the decoder reads with — ReadByte, io.ReadFull, io.CopyN and og-rek's own "
+                  "readLine loop over ReadSlice/ErrBufferFull — returns, under EVERY schedule of partial deliveries (any chunk sizes, "
+                  "buffer-full answers at any point), exactly what the flat-input reader of the decoder model returns "
+                  "(C14_readByte/readFull/copyN/readLine); the decoder model is built from these primitives only (Lemmas/Reader.lean). "
+                  "PARTIAL: bufio itself is modelled by its contract, not verified. Tie: the real Decoder is fed through readers that "
+                  "split the input at every position / byte-wise / randomly / with empty reads / with data+EOF and must equal the model on the flat input.")
+    level_note = "trusted: Lean kernel + standard axioms; the contract model of bufio/io; decoder model"
+    technique = "Lean 4 proof over chunk-schedule models of the four read primitives + differential run of the implementation under many Read schedules"
+    rule = ("inputs: pickles and streams from Encode, CPython, generated programs, corpus, malformed inputs, lines of "
+            "4095/4096/4097/8192/100000 bytes; schedules: 1-byte reads, every single split point (inputs <= 1 KiB), random k-way "
+            "splits, zero-length reads before data, final chunk with io.EOF; the implementation under each schedule must equal the "
+            "model on the flat input; distinct = distinct (config, schedule, input)")
+    assumptions = ["fewer than 100 consecutive empty reads (bufio gives up with io.ErrNoProgress beyond that)"]
+
+    def run(self, ctx):
+        rng = ctx.rng
+        from . import pyside
+        ins = [b"S'" + b"x" * n + b"'\n." for n in (4090, 4093, 4094, 4095, 4096, 8190, 100000)]
+        ins += [b"V" + b"y" * n + b"\n." for n in (4094, 4095, 4096, 4097, 8192)]
+        ins += [b"L" + b"9" * 4200 + b"L\n.", b"I" + b"7" * 4100 + b"\n.", b"cmod" + b"m" * 5000 + b"\nname\n.",
+                b"T" + (5000).to_bytes(4, "little") + b"z" * 5000 + b".", b"\x8a\xff" + b"\x01" * 255 + b".",
+                b"K\x01.K\x02.K\x03.", b"S'" + b"x" * 5000, b"S'" + b"x" * 4096 + b"\n."]
+        ins += own_corpus("C14") + enc_pickles(ctx, ctx.scale(150, 3000))
+        for obj in pyside.rand_objects(rng, ctx.scale(60, 1500)):
+            ins += pyside.pickle_variants(obj, rng, n=2)
+        for _ in range(ctx.scale(150, 3000)):
+            ins.append(P.ProgGen(rng, wellformed=rng.random() < 0.7, maxops=rng.choice([5, 15, 40])).gen())
+        base = corpus_files(200) or [b"N."]
+        for _ in range(ctx.scale(100, 3000)):
+            ins.append(P.mutate(rng, rng.choice(base)))
+        # streams
+        for _ in range(ctx.scale(60, 1000)):
+            ins.append(b"".join(rng.choice(ins[10:]) for _ in range(rng.randint(2, 4))))
+        flat, sched_lines, meta = [], [], []
+        for data in ins:
+            data = data[:120000]
+            cfg = rng.choice(CFGS)
+            scheds = ["1*", "e1*", "0,0,3*", "e4096*", "4095,1*", "4096,1,4095*", "4097*", "e7*"]
+            n = len(data)
+            if n <= 1024 and (ctx.thorough or rng.random() < 0.25):
+                scheds += [f"{k},{n}" for k in range(1, n)]
+                scheds += [f"e{k},{n}" for k in range(1, n, 3)]
+            else:
+                for _ in range(6):
+                    k = rng.randint(1, max(1, n - 1))
+                    scheds.append(f"{k},0,{n}")
+            for _ in range(4):
+                cuts = sorted(rng.randint(0, 50) for _ in range(rng.randint(2, 8)))
+                scheds.append(("e" if rng.random() < 0.5 else "") + ",".join(str(c) for c in cuts) + f",{rng.choice([1, 2, 5, 4096])}*")
+            flat.append(f"decs {cfg} - {hexs(data)}")
+            for s in scheds:
+                sched_lines.append(f"decr {cfg} {s} {hexs(data)}")
+                meta.append((len(flat) - 1, cfg, s, data))
+        lean = C.run_sharded(C.run_lean, flat)
+        goflat = C.run_sharded(C.run_go, flat)
+        go = C.run_sharded(C.run_go, sched_lines)
+
+        def strip(ans):   # drop consumed counts
+            return " | ".join(re.sub(r"^(OK .*) \d+$", r"\1", x) for x in ans.split(" | ") if not x.startswith("ALTERED"))
+        for line, g, l in zip(flat, goflat, lean):
+            ctx.evaluations += 1
+            ctx.tie(line, g, l)
+        for line, (fi, cfg, s, data), g in zip(sched_lines, meta, go):
+            ctx.evaluations += 1
+            ctx.count("schedule:" + ("split1" if re.fullmatch(r"e?\d+,\d+", s) else s[:12]))
+            ctx.nontrivial((cfg, s, data))
+            want_model = strip(lean[fi])
+            want_impl = strip(goflat[fi])
+            if "UNMODELLED" in want_model or "TOOBIG" in want_model or "TOOBIG" in g:
+                ctx.unmodelled += 1
+            elif g != want_model:
+                ctx.disagree(line[:3000], g, want_model, "chunked implementation vs model on flat input")
+            ctx.traces += 1
+            if g != want_impl and "TOOBIG" not in g:
+                ctx.violate("decoding depends on how the Reader delivers the bytes", line[:6000], want_impl, g)
+        for i in range(0, len(sched_lines), max(1, len(sched_lines) // 8)):
+            ctx.sample(sched_lines[i][:200] + " -> " + go[i][:200])
+
+
+# ------------------------------------------------------------------------------------------- C17
+
+def unhashable_atoms():
+    return [b"]", b"}", b"\x96\x01\x00\x00\x00\x00\x00\x00\x00a", b"(K\x01l", b"(K\x01K\x02d", b"]K\x01a"]
+
+
+def wrap_key(atom, depth, kind, rng):
+    """Bury the unhashable atom at `depth` inside Tuple / Call arguments / Ref id."""
+    k = atom
+    for _ in range(depth):
+        w = rng.choice(["t1", "t2", "t", "call", "ref"]) if kind is None else kind
+        if w == "t1":
+            k = k + b"\x85"
+        elif w == "t2":
+            k = b"K\x07" + k + b"\x86"
+        elif w == "t":
+            k = b"(K\x01" + k + b"Va\nt"
+        elif w == "call":
+            k = b"cmod\nfn\n(" + k + b"tR"
+        else:
+            k = k + b"Q"
+    return k
+
+
+class C17:
+    prop = "C17"
+    lean_module = "Ogorek.Props.C17"
+    theorems = ["Ogorek.hashTree_none_of_hasUnhashable", "Ogorek.goMapHashable_false_of", "Ogorek.C17_assign_present",
+                "Ogorek.C17_setitem", "Ogorek.C17_dict", "Ogorek.C17_setitems", "Ogorek.C17_api", "Ogorek.C04_no_panic"]
+    trusted_base = TB_COMMON + ["gomap: hashes the key before touching the table when the map is non-empty (empty case: repair F7)"]
+    level_text = ("Lean theorems: a key that is or contains (through Tuple, Call arguments, Ref id, at any depth) a list, dict/map or "
+                  "bytearray has no hash (hashTree_none_of_hasUnhashable) and — like any tuple — is refused by the builtin map "
+                  "(goMapHashable_false_of); SETITEM, DICT and SETITEMS with such a key at any position give an error, not success "
+                  "(C17_setitem/_dict/_setitems) and never a panic (C04_no_panic); an accepted assignment stores its entry "
+                  "(C17_assign_present); Dict.Get/Set/Del with such a key panic 'unhashable type:' before touching the table (C17_api). "
+                  "Tie: generated dict programs with the unhashable object at depth 0..3 x 3 opcodes x 2 modes, and API calls on Dicts of several sizes.")
+    level_note = "trusted: Lean kernel + standard axioms; decoder and Dict models; Go runtime's unhashable-key panic and recover()"
+    technique = "Lean 4 proof (structural induction on keys, case analysis of the three inserting opcodes) + differential correspondence + direct API probes"
+    rule = ("dict-building programs whose key holds a list / dict / bytearray (and, in map mode, a tuple) at depth 0..3 inside Tuple, Call "
+            "arguments or Ref id, inserted by DICT, SETITEM or SETITEMS at any pair position, x PyDict x StrictUnicode; direct "
+            "Get/Set/Del on Dicts with 0, 1, 100 entries; distinct = distinct (config, program) or (state, op, key)")
+    assumptions = []
+
+    def run(self, ctx):
+        rng = ctx.rng
+        lines, meta = [], []
+        atoms = unhashable_atoms()
+        for atom in atoms + [b"K\x05\x85", b"(K\x01K\x02t", b")"]:   # tuples: unhashable for builtin maps only
+            is_tuple_atom = atom in (b"K\x05\x85", b"(K\x01K\x02t", b")")
+            for depth in range(0, 4):
+                for kind in ([None] if depth == 0 else ["t1", "t2", "t", "call", "ref", None]):
+                    key = wrap_key(atom, depth, kind, rng)
+                    good = b"K\x09"
+                    for npre in (0, 1, 2):
+                        pre = b"".join(b"K" + bytes([i]) + b"N" for i in range(npre))
+                        progs = {
+                            "DICT": b"(" + pre + key + b"N" + good + b"Nd.",
+                            "SETITEM": b"}" + b"".join(b"K" + bytes([i]) + b"Ns" for i in range(npre)) + key + b"Ns.",
+                            "SETITEMS": b"}(" + pre + key + b"N" + good + b"Nu.",
+                            "SETITEMS-memo": b"}q\x00(" + pre + key + b"Nuh\x00.",
+                        }
+                        for op, prog in progs.items():
+                            for cfg in ("00", "11", "10"):
+                                lines.append(f"dec {cfg} - {hexs(prog)}")
+                                meta.append((op, cfg, depth, is_tuple_atom, kind))
+        for _ in range(ctx.scale(400, 10000)):
+            g = P.ProgGen(rng, wellformed=True, allow_unhashable_keys=0.5, colliding=0.2, maxops=rng.choice([10, 25]))
+            cfg = rng.choice(CFGS)
+            lines.append(f"dec {cfg} - {hexs(g.gen())}")
+            meta.append(("random", cfg, None, None, None))
+        go, lean = run_both(lines)
+        for line, (op, cfg, depth, is_tuple, kind), g, l in zip(lines, meta, go, lean):
+            ctx.evaluations += 1
+            ctx.tie(line, g, l)
+            ctx.nontrivial(line)
+            ctx.count(f"{op}:{dec_class(g)}")
+            if "PANIC" in g or g.startswith("CRASH"):
+                ctx.violate("Decode panicked on an unhashable key", line, "an error", g)
+            if op != "random":
+                pyd = cfg[0] == "1"
+                # tuple atoms are fine as Dict keys; Call/Tuple wrappers make any key unhashable for builtin maps
+                must_fail = (not is_tuple) or (not pyd)
+                if must_fail and not g.startswith("ERR"):
+                    ctx.violate("a pickle using an unhashable dict key did not make Decode return an error", line, "ERR …", g)
+        # direct API
+        dl, dm = [], []
+        bad_keys = ["l( )", "A01", "t( l( I1 ) )", "t( I1 t( A- ) )", "c( C6d.6e l( ) )", "R( l( ) )", "R( t( A01 ) )", "d( )",
+                    "m( )", "t( d( ) )", "t( t( t( l( ) ) ) )"]
+        for n in (0, 1, 100):
+            pre = " ; ".join(f"S I{i} I{i * 2}" for i in range(n))
+            for k in bad_keys:
+                for op in ("G", "D", "S"):
+                    tail = f"{op} {k}" + (" I1" if op == "S" else "")
+                    dl.append("dict " + (pre + " ; " if pre else "") + tail)
+                    dm.append((n, op, k))
+        dgo, dlean = run_both(dl)
+        for line, (n, op, k), g, l in zip(dl, dm, dgo, dlean):
+            ctx.evaluations += 1
+            ctx.nontrivial(line)
+            ctx.count(f"api:{op}:n={n}")
+            lastg, lastl = g.split(" | ")[-1], l.split(" | ")[-1]
+            ctx.tie(line[-300:], lastg, lastl)
+            prev = g.split(" | ")[-2] if n else "len=0 iter=0 d( )"
+            prev = prev[prev.index("len="):]
+            if not lastg.startswith("PANIC:unhashable_type:"):
+                ctx.violate("Dict API call with an unhashable key did not panic with 'unhashable type:'", line[-300:], "PANIC:unhashable_type: …", lastg[:200])
+            elif lastg[len("PANIC:unhashable_type: "):] != prev:
+                ctx.violate("Dict contents changed by a panicking API call", line[-300:], prev[:200], lastg[:200])
+        for i in range(0, len(lines), max(1, len(lines) // 6)):
+            ctx.sample(lines[i][:300] + " -> " + go[i][:200])
+        ctx.sample(dl[0] + " -> " + dgo[0])
+
+
+# ------------------------------------------------------------------------------------------- C18
+
+class C18:
+    prop = "C18"
+    lean_module = "Ogorek.Props.C18"
+    theorems = ["Ogorek.C18_other_insn_no_call", "Ogorek.C18_handleRef", "Ogorek.C18_persid", "Ogorek.C18_binpersid",
+                "Ogorek.C18_one_call", "Ogorek.C18_ref_p0", "Ogorek.C18_ref_bin", "Ogorek.C18_ref_unmapped"]
+    trusted_base = TB_COMMON + ["PersistentRef ids returned by the application do not themselves contain application objects (substitution model)"]
+    level_text = ("Lean theorems: only PERSID/BINPERSID invoke PersistentLoad (C18_other_insn_no_call, by cases over all instructions), "
+                  "each exactly once with Ref{decoded id}, a non-nil answer replaces the Ref, nil keeps it, an error aborts with an error "
+                  "(C18_handleRef, C18_persid, C18_binpersid, C18_one_call); a pointer-to-struct mapped by PersistentRef is encoded exactly "
+                  "as that Ref — PERSID with single-line string id at protocol 0 else the documented error, id+BINPERSID at protocols >= 1 "
+                  "(C18_ref_p0, C18_ref_bin, C18_ref_unmapped). PARTIAL: the inverse-hooks round trip is tied by correspondence (it composes "
+                  "these with the C03 round trip, whose proof covers the binary fragment). Tie: instrumented hooks on both sides: call "
+                  "sequences, results, and Encode->Decode of object graphs with 0-20 references.")
+    level_note = "trusted: Lean kernel + standard axioms; decoder/encoder models; the application hooks are parameters"
+    technique = "Lean 4 proof (case analysis over instructions; encoder substitution lemma) + differential correspondence with instrumented hooks"
+    rule = ("decoder: generated programs rich in PERSID/BINPERSID x hook behaviours {none, keep, replace, fail at call i} x 4 configs, "
+            "comparing result and the sequence of Refs the hook received; encoder: object graphs with 0-20 application objects x "
+            "PersistentRef behaviours {string ids, tuple ids, ids with newline, only even objects mapped} x protocols 0-5; round trip "
+            "with inverse hooks; distinct = distinct case lines")
+    assumptions = []
+
+    def graphs(self, ctx, n):
+        rng = ctx.rng
+        out = []
+        for _ in range(n):
+            pd, su = rng.random() < 0.5, rng.random() < 0.5
+            g = V.ValueGen(rng, pydict=pd, su=su, canonical=True, allow_user=True, maxdepth=3,
+                           allow_refs=False, allow_bad_class=False)
+            v = g.value()
+            k = rng.randint(0, 6)
+            items = [v] + [("X", rng.randint(0, 9)) for _ in range(k)]
+            rng.shuffle(items)
+            out.append((("l", items) if rng.random() < 0.5 else ("t", items), pd, su))
+        return out
+
+    def run(self, ctx):
+        rng = ctx.rng
+        lines, meta = [], []
+        for _ in range(ctx.scale(1500, 30000)):
+            g = P.ProgGen(rng, wellformed=rng.random() < 0.9, persid=0.25, maxops=rng.choice([6, 15, 30]))
+            hook = rng.choice(["-", "K", "R", "R", "F0", "F1", "F2", "F5"])
+            cfg = rng.choice(CFGS)
+            lines.append(f"dech {cfg} {hook} {hexs(g.gen())}")
+            meta.append(("dec", hook))
+        for v, pd, su in self.graphs(ctx, ctx.scale(500, 10000)):
+            p = rng.randint(0, 5)
+            rh = rng.choice(["-", "S", "S", "T", "N", "E"])
+            lines.append(f"enc {p} {int(su)} {rh} {V.render(v, sort=False)}")
+            meta.append(("enc", (rh, p, v, pd, su)))
+        go, lean = run_both(lines)
+        rt_lines, rt_meta = [], []
+        for line, (kind, info), g, l in zip(lines, meta, go, lean):
+            ctx.evaluations += 1
+            ctx.nontrivial(line)
+            if kind == "dec":
+                ctx.tie(line, g, l)
+                res, _, calls = g.partition(" ; ")
+                ncalls = calls.count("R( ")
+                ctx.count(f"hook={info}:{dec_class(res)}")
+                ctx.count("persistent-load-calls", ncalls)
+                if info.startswith("F") and ncalls > int(info[1:]) and not res.startswith("ERR"):
+                    ctx.violate("PersistentLoad returned an error but Decode did not fail", line, "ERR", g)
+                if "PANIC" in g:
+                    ctx.violate("Decode panicked", line, "value or error", g)
+            else:
+                rh, p, v, pd, su = info
+                multi = V.max_entries(v) > 1
+                ok = ctx.tie(line, g, l, project=(lambda s: ",".join(sorted(s.split(" ", 1)[-1].split(",")))) if multi else None)
+                ctx.count(f"refhook={rh}:p{p}:{g.split(' ')[0]}{(':' + g.split(' ')[1]) if g.startswith('ERR') else ''}")
+                if rh == "S" and g.startswith("OK "):
+                    data = bytes.fromhex("".join(c for c in g[3:].split(",") if c != "-"))
+                    # inverse hook: ids "id<n>" map back to object n -> decode must restore the graph
+                    rt_lines.append((data, v, p, pd, su))
+        # round trip with inverse hooks (implementation only: the model side is covered by enc + dech ties)
+        if rt_lines:
+            cfg_lines = []
+            for (data, v, p, pd, su) in rt_lines:
+                cfg_lines.append(f"dech {int(pd)}{int(su)} I {hexs(data)}")
+            rgo, rlean = run_both(cfg_lines)
+            for cl, (data, v, p, pd, su), g, l in zip(cfg_lines, rt_lines, rgo, rlean):
+                ctx.evaluations += 1
+                ctx.count("roundtrip-inverse-hooks")
+                ctx.tie(cl, g, l)
+                res = g.partition(" ; ")[0]
+                want = V.render(v)
+                got = res[3:].rsplit(" ", 1)[0] if res.startswith("OK ") else res
+                if got != want and not self._expected_normalisation(v, p):
+                    ctx.violate("Encode with PersistentRef followed by Decode with the inverse PersistentLoad did not restore the graph",
+                                cl[:3000], want[:1500], got[:1500])
+        for i in range(0, len(lines), max(1, len(lines) // 8)):
+            ctx.sample(lines[i][:300] + " -> " + go[i][:200])
+
+    @staticmethod
+    def _expected_normalisation(v, p):
+        # values are generated canonical for their own (pydict, su) so the round trip is the identity,
+        # except bytearray calls below protocol 5 decode through the announced protocol (by design) - still identity.
+        return False
+
+
+# ------------------------------------------------------------------------------------------- C19
+
+def int_forms(n):
+    forms = [("INT", P.INT(n)), ("LONG", P.LONG(n))]
+    if -2 ** 2030 < n < 2 ** 2030:
+        forms.append(("LONG1", P.LONG1(n)))
+        if len(P.long_bytes(n)) < 250:
+            forms.append(("LONG1pad", P.LONG1(n, pad=3)))
+    if 0 <= n < 256:
+        forms.append(("BININT1", P.BININT1(n)))
+    if 0 <= n < 65536:
+        forms.append(("BININT2", P.BININT2(n)))
+    if -2 ** 31 <= n < 2 ** 31:
+        forms.append(("BININT", P.BININT(n)))
+    return forms
+
+
+def payload_forms(s):
+    """(name, bytes, kind) kind: 'str2' py2 str, 'uni' unicode, 'bytes', 'bytearray'."""
+    out = [("BINSTRING", P.BINSTRING(s), "str2"), ("STRING", P.STRING(s), "str2"),
+           ("STRING-gorepr", b"S" + go_pyquote(s) + b"\n", "str2"),
+           ("BINBYTES", P.BINBYTES(s), "bytes"), ("BYTEARRAY8", P.BYTEARRAY8(s), "bytearray")]
+    if len(s) < 256:
+        out += [("SHORT_BINSTRING", P.SHORT_BINSTRING(s), "str2"), ("SHORT_BINBYTES", P.SHORT_BINBYTES(s), "bytes")]
+    out.append(("BINUNICODE", P.BINUNICODE(s), "uni"))
+    if len(s) < 256:
+        out.append(("SHORT_BINUNICODE", P.SHORT_BINUNICODE(s), "uni"))
+    try:
+        u = s.decode("utf-8")
+        out.append(("UNICODE", P.UNICODE_text(u), "uni"))
+    except UnicodeDecodeError:
+        pass
+    return out
+
+
+def go_pyquote(s):
+    """A second quoting of a byte string: double quotes, \\x escapes for everything non-printable ASCII."""
+    out = bytearray(b'"')
+    for b in s:
+        if b in (0x22, 0x5c):
+            out += b"\\" + bytes([b])
+        elif 0x20 <= b < 0x7f:
+            out.append(b)
+        else:
+            out += b"\\x%02x" % b
+    out += b'"'
+    return bytes(out)
+
+
+class C19:
+    prop = "C19"
+    lean_module = "Ogorek.Props.C19"
+    theorems = ["Ogorek.parseDecimal_fmtInt", "Ogorek.decodeLong_twos", "Ogorek.C19_INT", "Ogorek.C19_LONG", "Ogorek.C19_BININT1",
+                "Ogorek.C19_BININT2", "Ogorek.C19_BININT", "Ogorek.C19_LONG1", "Ogorek.C19_LONG1_zero", "Ogorek.C19_counted",
+                "Ogorek.C19_helpers", "Ogorek.C19_key"]
+    trusted_base = TB_COMMON
+    level_text = ("Lean theorems, for EVERY integer n and every opcode form able to carry it: INT text, LONG text, BININT1, BININT2, BININT, "
+                  "LONG1 of every width 1..255 into which n fits (decodeLong proved to be two's complement for all widths — the F1 "
+                  "area), the instruction read pushes a value on which AsInt64 answers n iff n fits int64 (C19_INT … C19_LONG1, "
+                  "from parseDecimal_fmtInt and decodeLong_twos); every counted string/bytes opcode delivers its payload unchanged as the "
+                  "documented kind and AsString/AsBytes accept exactly unicode+py2-str / bytes+py2-str in both StrictUnicode modes "
+                  "(C19_counted, C19_helpers); int64 and *big.Int forms of one integer are equal Dict keys with equal hash (C19_key). "
+                  "PARTIAL: the text forms STRING/UNICODE rest on the codec inverse lemmas of C03 (tied by correspondence here).")
+    level_note = "trusted: Lean kernel + standard axioms; decoder parse layer and typeconv model; strconv.ParseInt/big.SetString as `[+-]?[0-9]+`"
+    technique = "Lean 4 proof (decimal and two's-complement round-trip lemmas, per-opcode evaluation) + differential correspondence over integers x forms"
+    rule = ("integers: quick: -300..300, boundary lattice +-2^k+d (k<=70, and k up to 2031 for LONG1 widths 1..255), random 64-bit; "
+            "thorough: exhaustively -2^16..2^16 in addition; x every applicable opcode form (INT, LONG, LONG1 minimal and padded, "
+            "BININT, BININT1, BININT2); payloads from the adversarial alphabet x 11 opcode forms x StrictUnicode; in PyDict mode pairs of "
+            "forms of one integer as keys of one dict; distinct = distinct (form, value) cases")
+    assumptions = []
+
+    def run(self, ctx):
+        rng = ctx.rng
+        ints = set(range(-300, 301)) | set(V.INT_LATTICE)
+        for k in list(range(71, 2031, 37)) + [127 * 8 - 1, 127 * 8, 128 * 8 - 1, 128 * 8, 255 * 8 - 2, 2030]:
+            for d in (-1, 0, 1):
+                ints.add(2 ** k + d)
+                ints.add(-(2 ** k) + d)
+        for _ in range(ctx.scale(300, 5000)):
+            ints.add(rng.getrandbits(64) - 2 ** 63)
+            ints.add(rng.getrandbits(rng.choice([70, 100, 500])) * rng.choice([1, -1]))
+        if ctx.thorough:
+            ints |= set(range(-2 ** 16, 2 ** 16 + 1))
+            ctx.exhaustive = True
+        lines, meta = [], []
+        for n in sorted(ints):
+            for name, b in int_forms(n):
+                cfg = rng.choice(CFGS)
+                lines.append(f"conv {cfg} {hexs(b + b'.')}")
+                meta.append(("int", name, n))
+        payloads = [b"", b"a", b"abc", b"'", b'"', b"\\", b"\n", b"a\nb", b"\x00", b"\xff", b"\xc3\xa9", "€".encode(), b"\\x41",
+                    b"\\u0041", b"'\"", b"x" * 255, b"y" * 256, b"z" * 300, b"\x80abc", b"\r\n\t", b"\x1a\x7f"]
+        for _ in range(ctx.scale(250, 4000)):
+            payloads.append(V.rand_bytes(rng, maxchunks=5))
+        for s in payloads:
+            for name, b, kind in payload_forms(s):
+                for su in "01":
+                    lines.append(f"conv {rng.choice('01')}{su} {hexs(b + b'.')}")
+                    meta.append(("payload", name, (s, kind, su)))
+        # one integer, two representations, one Dict entry
+        for n in rng.sample(sorted(i for i in ints if -2 ** 200 < i < 2 ** 200), ctx.scale(150, 2000)):
+            fs = int_forms(n)
+            (n1, f1), (n2, f2) = rng.choice(fs), rng.choice(fs)
+            prog = b"}" + f1 + b"K\x07s" + f2 + b"K\x08s."
+            lines.append(f"dec 1{rng.choice('01')} - {hexs(prog)}")
+            meta.append(("key", f"{n1}/{n2}", n))
+        go, lean = run_both(lines)
+        for line, (kind, name, info), g, l in zip(lines, meta, go, lean):
+            ctx.evaluations += 1
+            ctx.tie(line, g, l)
+            ctx.nontrivial((kind, name, str(info)))
+            ctx.count(f"{kind}:{name}")
+            if kind == "int":
+                n = info
+                want = f"I:{n} S:ERR B:ERR" if -2 ** 63 <= n < 2 ** 63 else "I:ERR S:ERR B:ERR"
+                if g != want:
+                    ctx.violate(f"AsInt64 of the value decoded from the {name} form of {n if abs(n) < 10**30 else 'a big integer'}", line[:400], want, g)
+            elif kind == "payload":
+                s, k, su = info
+                h = hexs(s)
+                want = {"str2": f"I:ERR S:{h} B:{h}" if su == "1" else f"I:ERR S:{h} B:ERR",
+                        "uni": f"I:ERR S:{h} B:ERR", "bytes": f"I:ERR S:ERR B:{h}", "bytearray": "I:ERR S:ERR B:ERR"}[k]
+                if g != want:
+                    ctx.violate(f"AsString/AsBytes on the value decoded from {name} (StrictUnicode={su})", line[:400], want, g)
+            else:
+                m = re.match(r"OK d\( (\S+) I8 \) \d+$", g)
+                if not m:
+                    ctx.violate("two representations of one integer did not address the same Dict entry", line[:400], "OK d( <n> I8 )", g)
+        for i in range(0, len(lines), max(1, len(lines) // 8)):
+            ctx.sample(lines[i][:200] + " -> " + go[i][:120])
